@@ -1,6 +1,7 @@
 package props
 
 import (
+	"encoding/binary"
 	"fmt"
 	"math/big"
 	"math/rand"
@@ -89,6 +90,18 @@ func decodeBase36(s string) []byte {
 	}
 
 	return n.Bytes()
+}
+
+// redateShortNonce moves the minute count in front of a short nonce by delta, keeping the MAC.
+func redateShortNonce(n string, hmacLen, delta int) string {
+	b := decodeBase36(n)
+	if b == nil || len(b) > 4+hmacLen {
+		return ""
+	}
+	b = append(make([]byte, 4+hmacLen-len(b)), b...)
+	binary.BigEndian.PutUint32(b[:4], uint32(int64(binary.BigEndian.Uint32(b[:4]))+int64(delta))) //nolint:gosec
+
+	return strings.ToUpper(new(big.Int).SetBytes(b).Text(36))
 }
 
 // sameShortNonce reports whether two nonce strings denote the same bytes under base-36
@@ -211,6 +224,7 @@ func runC03A(t *testing.T, rng *rand.Rand, rec *sim.Rec, tier string, caseNo int
 		Realm: "verif.test", Users: map[string]string{"alice": "pw-a", "bob": "pw-b"}, NoAuth: noAuth, EmptyUserID: emptyUID,
 		Lifetime: 26 * time.Hour, PermTimeout: 26 * time.Hour, ChanTimeout: 26 * time.Hour,
 		UDPListeners: []*net.UDPAddr{{IP: sim.ServerIP4, Port: 3478}},
+		TCPListeners: []*net.TCPAddr{{IP: sim.ServerIP4, Port: 3478}},
 	}
 	w, err := sim.NewWorld(cfg, rec, rng, true)
 	if err != nil {
@@ -218,9 +232,19 @@ func runC03A(t *testing.T, rng *rand.Rand, rec *sim.Rec, tier string, caseNo int
 	}
 	defer w.Shutdown()
 	x := &c03{t: t, w: w, m: sim.NewModel(w), rng: rng, rec: rec}
-	alice, _ := w.NewUDPClient("alice@c0", net.IPv4(10, 1, 0, 1).To4(), 5000, 0, "alice")
-	fresh, _ := w.NewUDPClient("alice@c1", net.IPv4(10, 1, 0, 1).To4(), 5001, 0, "alice")
-	bobc, _ := w.NewUDPClient("bob@c2", net.IPv4(10, 1, 0, 2).To4(), 5002, 0, "bob")
+	// one case in three: the clients reach the server over TCP control connections (the rules are
+	// the same: a stream's 5-tuple is no credential)
+	newClient := w.NewUDPClient
+	if caseNo%3 == 1 {
+		newClient = w.NewTCPClient
+		rec.FP("clients-over-tcp")
+	}
+	alice, err1 := newClient("alice@c0", net.IPv4(10, 1, 0, 1).To4(), 5000, 0, "alice")
+	fresh, err2 := newClient("alice@c1", net.IPv4(10, 1, 0, 1).To4(), 5001, 0, "alice")
+	bobc, err3 := newClient("bob@c2", net.IPv4(10, 1, 0, 2).To4(), 5002, 0, "bob")
+	if err1 != nil || err2 != nil || err3 != nil {
+		t.Fatal(err1, err2, err3)
+	}
 	p1, _ := w.NewPeer("p1", net.IPv4(10, 2, 0, 1).To4(), 7000)
 	p2, _ := w.NewPeer("p2", net.IPv4(10, 2, 0, 2).To4(), 7001)
 	// a second, independent server instance mints "foreign" nonces
@@ -685,6 +709,32 @@ func runC03B(t *testing.T, rng *rand.Rand, rec *sim.Rec, tier string, caseNo int
 			rec.FP("nonce/%s/mutated-rejected/%d", impl, code)
 		}
 	}
+	// re-dated: the same MAC behind another minute count inside the last hour (the short nonce is
+	// timestamp || truncated HMAC(timestamp))
+	if hmacLen >= 8 {
+		for _, delta := range []int{-1, -25, -59, 1} {
+			if rn := redateShortNonce(n0, hmacLen, delta); rn != "" {
+				if code := tryAlloc(rn); code == 0 {
+					rec.Violate("auth-nonce-mutated", impl+"/re-dated", "nonce impl %s: nonce %q with its timestamp moved by %d min (%q) accepted", impl, n0, delta, rn)
+				} else {
+					rec.FP("nonce/%s/re-dated-rejected/%d", impl, code)
+				}
+			}
+		}
+	}
+	defer func() {
+		// ... and an expired nonce given today's date
+		if hmacLen < 8 || len(rec.Violations()) > 0 {
+			return
+		}
+		if rn := redateShortNonce(n0, hmacLen, int(time.Since(minted)/time.Minute)); rn != "" {
+			if code := tryAlloc(rn); code == 0 {
+				rec.Violate("auth-nonce-age", impl+"/re-dated", "nonce impl %s: a nonce minted %v ago whose timestamp was moved to now (%q) accepted", impl, time.Since(minted), rn)
+			} else {
+				rec.FP("nonce/%s/expired-re-dated-rejected/%d", impl, code)
+			}
+		}
+	}()
 	// age: accepted up to 59 min after minting, rejected from 62 min on (the short nonce has
 	// one-minute granularity; in between the statement's "within the last hour" is undetermined)
 	for _, age := range []time.Duration{30 * time.Minute, 59 * time.Minute, 62 * time.Minute, 3 * time.Hour, 25 * time.Hour} {
